@@ -34,7 +34,7 @@ var templates = map[string][][]string{
 	"hgetall": {{"hgetall", "vns:t:h1"}}, "hkeys": {{"hkeys", "vns:t:h1"}}, "hvals": {{"hvals", "vns:t:h1"}},
 	"hexists": {{"hexists", "vns:t:h1", "f1"}}, "hmget": {{"hmget", "vns:t:h1", "f1", "nof"}}, "hlen": {{"hlen", "vns:t:h1"}},
 	"hset": {{"hset", "vns:t:h1", "f3", "v3"}}, "hsetnx": {{"hsetnx", "vns:t:h1", "f4", "v4"}},
-	"hmset": {{"hmset", "vns:t:h1", "f5", "v5", "f6", "v6"}}, "hdel": {{"hdel", "vns:t:h1", "f1", "f5"}},
+	"hmset": {{"hmset", "vns:t:h1", "f5", "v5", "f6", "v6"}, {"hmset", "vns:t:h3", "a", "1"}, {"hmset", "vns:t:h4", "a", "1", "b", "2", "c", "3"}}, "hdel": {{"hdel", "vns:t:h1", "f1", "f5"}},
 	"hincrby": {{"hincrby", "vns:t:h1", "f2", "3"}}, "hclear": {{"hclear", "vns:t:h2"}},
 	// json
 	"json.get": {{"json.get", "vns:t:j1", "a"}, {"json.get", "vns:t:j1"}}, "json.keyexists": {{"json.keyexists", "vns:t:j1"}},
@@ -211,7 +211,7 @@ func pickVal(r *hx.Rng) []byte {
 
 func mutateOnce(r *hx.Rng, v [][]byte) ([][]byte, string) {
 	n := len(v)
-	switch r.Pick(14) {
+	switch r.Pick(15) {
 	case 0: // drop one argument (not the name)
 		if n > 1 {
 			i := 1 + r.Pick(n-1)
@@ -275,6 +275,19 @@ func mutateOnce(r *hx.Rng, v [][]byte) ([][]byte, string) {
 		}
 	case 13: // only the name
 		return v[:1], "nameonly"
+	case 14: // the LAST field/member/value pair of a multi-pair command gets an over-long or odd element
+		if n >= 4 {
+			i := n - 2 + r.Pick(2)
+			switch r.Pick(3) {
+			case 0:
+				v[i] = append([]byte{}, longSub...)
+			case 1:
+				v[i] = append([]byte{}, longSub[:10240]...)
+			default:
+				v[i] = pickVal(r)
+			}
+			return v, "lastpair"
+		}
 	}
 	return v, "none"
 }
@@ -371,6 +384,84 @@ func bigVectors() []vector {
 		out = append(out, mk("zrem", []string{"zrem", "vns:t:z1"}, 1, cnt))
 		out = append(out, mk("srem", []string{"srem", "vns:t:s1"}, 1, cnt))
 		out = append(out, mk("json.mkget", []string{"json.mkget"}, 1, cnt))
+	}
+	return out
+}
+
+// sweepVectors: for every write command template, the last argument (the value position) and, when there
+// is one, the field/member position get a run of one byte whose length is a size constant of the write
+// path +-32 (step 4, plus +-1); the key gets the sizes up to the key limit. maxSize bounds the constants used.
+func sweepVectors(names []string, isWrite func(string) bool, maxSize int64, part, nparts int, full bool) []vector {
+	var deltas []int64
+	for d := int64(-32); d <= 32; d += 4 {
+		deltas = append(deltas, d)
+	}
+	deltas = append(deltas, -1, 1)
+	var out []vector
+	for _, sc := range sizeConstants() {
+		if sc.Value < 128 || sc.Value > maxSize {
+			continue
+		}
+		big := sc.Value >= 100000
+		wi := -1
+		for _, n := range names {
+			if !isWrite(n) {
+				continue
+			}
+			wi++
+			if nparts > 1 && wi%nparts != part {
+				continue
+			}
+			tp := templates[n]
+			if len(tp) == 0 {
+				tp = genericTemplates(n)
+			}
+			t := tp[0]
+			if len(t) < 3 {
+				continue
+			}
+			if big && strings.HasPrefix(n, "json.") {
+				continue // a JSON string does not end in a run of one byte: it would not stay compact in the case files
+			}
+			if big && sc.Value > 1<<20 && n != "set" && n != "hset" && n != "lpush" && n != "setex" {
+				continue // the largest constants only through a few commands (megabytes per vector)
+			}
+			// the value position for every constant; the field/member and key positions for every constant up
+			// to the key limit in the full sweep, else only for the limits that apply to them
+			pos := []int{len(t) - 1}
+			small := sc.Value <= 10240+64
+			limit := sc.Name == "MaxKeySize" || sc.Name == "MaxSubKeyLen" || sc.Name == "MaxTableNameLen"
+			if len(t) >= 4 && small && (full || limit) {
+				pos = append(pos, 2)
+			}
+			if small && (full || limit) {
+				pos = append(pos, 1)
+			}
+			for _, p := range pos {
+				for _, d := range deltas {
+					l := sc.Value + d
+					if l < 1 {
+						continue
+					}
+					v := clone(bb(t))
+					if p == 1 {
+						if l <= 6 {
+							continue
+						}
+						v[1] = append([]byte("vns:t:"), bytes.Repeat([]byte("K"), int(l)-6)...)
+					} else if strings.HasPrefix(n, "json.") && p == len(t)-1 {
+						// a JSON string of that total length
+						if l < 3 {
+							continue
+						}
+						v[p] = append(append([]byte{'"'}, bytes.Repeat([]byte("j"), int(l)-2)...), '"')
+					} else {
+						v[p] = bytes.Repeat([]byte("V"), int(l))
+					}
+					out = append(out, vector{args: v, base: n, mut: fmt.Sprintf("size:%s%+d", sc.Name, d)})
+				}
+			}
+		}
 	}
 	return out
 }
